@@ -459,3 +459,42 @@ theorem toy_two_hidden_states :
     amkKeyObj, afromAffineObj, spec, hx, hy, gg, Gen.Ecdsa.pubkey_x_out,
     Gen.Ecdsa.pubkey_y_out, Gen.Ecdsa.pubkey_no_order, toyC]
   refine ⟨?_, ?_, ?_, ?_, ?_, ?_, ?_, ?_, ?_, ?_, ?_⟩ <;> exact C19.coveredB_sound rfl
+
+/-! ### instance: pickling keys
+
+`toyH₃`: the heap `toyH₁` (generator with its table built; the point (2, 7) held as the triple (10, 8, 4)) plus a
+`VerifyingKey` on these two objects and the `SigningKey` d = 1 of it. -/
+
+def toyH₃ : Heap := toyH₁ ++ [.key (.obj 0) (.obj 1), .skey 1 2]
+
+/-- non-vacuity of `C19.pickle_roundtrip_key` and `C19.pickle_roundtrip_skey`: their hypotheses hold on `toyH₃`, so the
+restored keys are new objects (6 resp. 10) whose generator / point cells denote the same values; and, by kernel evaluation
+of the concrete model, the restored keys serialise, compare, sign and verify as the originals (signature (3, 2) on hash 7
+with nonce 5 is made by both signing keys and accepted by all three verifying keys; (3, 3) is rejected). -/
+theorem toy_key_pickle :
+    ∃ (C : Ctx 11 1 6) (g : C.H),
+      Inv (HS C) (HA C) toyH₃ [.pj g (some 13) true, .pj g none false, .key (.obj 0) (.obj 1), .skey 1 2] ∧
+      ((step toyH₃ (.pickle (.obj 2))).2 = .ref (.obj 6) ∧
+        Inv (HS C) (HA C) (step toyH₃ (.pickle (.obj 2))).1
+          ([.pj g (some 13) true, .pj g none false, .key (.obj 0) (.obj 1), .skey 1 2] ++
+            [.pj g (some 13) true, .pj g none false, .key (.obj 4) (.obj 5)])) ∧
+      ((step toyH₃ (.pickle (.obj 3))).2 = .ref (.obj 7) ∧
+        Inv (HS C) (HA C) (step toyH₃ (.pickle (.obj 3))).1
+          ([.pj g (some 13) true, .pj g none false, .key (.obj 0) (.obj 1), .skey 1 2] ++
+            [.pj g (some 13) true, .pj g none false, .key (.obj 4) (.obj 5), .skey 1 6])) ∧
+      outputs toyH₃ [.pickle (.obj 2), .pickle (.obj 3), .keySer 2 1, .keySer 6 1, .keySer 9 2, .keyEq 2 6, .keyEq 9 2,
+          .skSign 3 7 5, .skSign 10 7 5, .keyVerify 2 7 3 2, .keyVerify 6 7 3 2, .keyVerify 9 7 3 2, .keyVerify 6 7 3 3] =
+        [.ref (.obj 6), .ref (.obj 10), .bytes [4, 2, 7], .bytes [4, 2, 7], .bytes [3, 2], .bool true, .bool true,
+          .pair 3 2, .pair 3 2, .bool true, .bool true, .bool true, .bool false] := by
+  obtain ⟨C, g, inv1, _, _, _⟩ := toy_two_hidden_states
+  let _ : DecidableEq C.H := Classical.decEq _
+  have inv3 : Inv (HS C) (HA C) toyH₃ [.pj g (some 13) true, .pj g none false, .key (.obj 0) (.obj 1), .skey 1 2] := by
+    have tail : List.Forall₂ (Rel (HS C) (HA C)) [Obj.key (.obj 0) (.obj 1), Obj.skey 1 2]
+        [AObj.key (.obj 0) (.obj 1), AObj.skey 1 2] :=
+      List.Forall₂.cons (Rel.key _ _) (List.Forall₂.cons (Rel.skey _ _) List.Forall₂.nil)
+    have := List.rel_append inv1 tail
+    simpa [toyH₃, PointObj.Inv] using this
+  have RI := rep_indep (by decide) C toyC toyC_on
+  refine ⟨C, g, inv3, ?_, ?_, by decide +kernel⟩
+  · exact C19.pickle_roundtrip_key RI inv3 2 0 1 g g (some 13) none true false (by decide) rfl rfl rfl
+  · exact C19.pickle_roundtrip_skey RI inv3 3 1 2 0 1 g g (some 13) none true false (by decide) rfl rfl rfl rfl
